@@ -69,7 +69,9 @@ def run_variant(v: dict) -> dict:
 LAST: dict = {}
 
 
-def main(jobs: int = 16, only: str | None = None) -> int:
+def main(jobs: int = 16, only: str | None = None, strict: bool = True) -> int:
+    """strict=False (thorough tier of a check): variants whose anchor text is gone from the tree under analysis are
+    skipped and reported, not failed — the tree may have been edited since the variant library was written."""
     t0 = time.time()
     vs = load_variants()
     if only:
@@ -81,11 +83,15 @@ def main(jobs: int = 16, only: str | None = None) -> int:
     with cf.ThreadPoolExecutor(max_workers=jobs) as ex:
         for r in ex.map(run_variant, vs):
             res.append(r)
-    bad = [r for r in res if not r["ok"]]
+    stale = [r for r in res if r.get("stale")]
+    bad = [r for r in res if not r["ok"] and (strict or not r.get("stale"))]
+    for r in stale:
+        if not strict:
+            print(f"SELFTEST-SKIP {r['id']}: {r['why']}")
     nb = sum(1 for v in vs if v["kind"] == "break")
     print(f"[selftest{' ' + only if only else ''}] variants={len(vs)} (break={nb}, neutral={len(vs) - nb}) failed={len(bad)} wall={time.time() - t0:.1f}s")
     LAST.clear()
-    LAST.update({"variants": len(vs), "break": nb, "neutral": len(vs) - nb, "failed": len(bad), "ids": [v["id"] for v in vs], "wall_s": round(time.time() - t0, 2)})
+    LAST.update({"variants": len(vs), "break": nb, "neutral": len(vs) - nb, "failed": len(bad), "stale_skipped": 0 if strict else len(stale), "ids": [v["id"] for v in vs], "wall_s": round(time.time() - t0, 2)})
     for r in bad:
         print(f"SELFTEST-FAIL {r['id']}: {r['why']}")
         if r.get("out"):
